@@ -145,9 +145,9 @@ def zero_cases(ctx, n):
 
 
 def run(ctx):
-    extra = rerun_cases(ctx, ctx.budget(6, 120), ctx.budget(2, 30), ctx.budget(0, 2)) + zero_cases(ctx, ctx.budget(8, 120))
+    extra = rerun_cases(ctx, fakes.bud(ctx, 6, 120), fakes.bud(ctx, 2, 30), fakes.bud(ctx, 0, 2)) + zero_cases(ctx, fakes.bud(ctx, 8, 120))
     out, cases, obs, usable, bad = fakes.drive(
-        ctx, "c15", SPEC, ctx.budget(18, 300), ctx.budget(4, 50), ctx.budget(10, 768), RULE,
+        ctx, "c15", SPEC, fakes.bud(ctx, 18, 300), fakes.bud(ctx, 4, 50), fakes.bud(ctx, 10, 768), RULE,
         "a job started before an upstream job succeeded / started twice / was never run", extra_cases=extra,
         classify=classify)
     # forced re-run over a warm cache: every value in the outputs must come from the second run
